@@ -63,6 +63,16 @@ CLAIMS = {
              "Cache.file_hash memoisation across compilations in one process, transitive_fingerprint's dependency walk, "
              "Inline._inline_key call sites (the key omits cython_compiler_directives), cache lookup/store I/O.",
         ref="4 C48"),
+    "C50": dict(
+        text="Proof of two data-structure kernels of the lexer engine: TransitionMap.split (binary search with insertion) against the "
+             "class's representation invariant - loop invariant taken from the source comment, termination, field-exact postcondition "
+             "(map unchanged, or [code, COPY of the left set] inserted at the returned even index strictly between its neighbours), "
+             "invariant re-established, no other set object changed; and Regexps.Seq.__init__: the nullable / match_nl flags equal "
+             "their definition over the items (they decide where begin-of-line transitions are generated). Kernel only.",
+        note="Trusted: dv Python front end (heap as address-indexed arrays; list cells typed by position through the invariant), z3. "
+             "Unverified: TransitionMap.add/add_set/items, NFA construction (build_machine), nfa_to_dfa, the scanner loop - the global "
+             "longest-match/earliest-rule theorem is not proved.",
+        ref="4 C50"),
     "C38": dict(
         text="Proof for ALL integers (unbounded) that the interpreted fallbacks Shadow.cdiv / Shadow.cmod compute C truncating division "
              "and remainder - the same spec functions the compiled cdivision code is proved against in C03 - and raise ZeroDivisionError "
